@@ -80,6 +80,21 @@ pub trait HasStack<T> {
         Self: Sized,
     {
         let stack = self.stack_mut::<T>();
+        // The replacement has to fit once the arguments are gone. It doesn't if the
+        // maximum was lowered below the current size; check that before removing
+        // anything so the state carried by the error is the state we were given.
+        if stack
+            .size()
+            .checked_sub(num_to_replace)
+            .is_some_and(|remaining| remaining >= stack.max_stack_size())
+        {
+            return Err(Error::fatal(
+                self,
+                StackError::Overflow {
+                    stack_type: std::any::type_name::<T>(),
+                },
+            ));
+        }
         match stack.discard(num_to_replace) {
             Ok(()) => self.with_push(value),
             Err(error) => Err(Error::fatal(self, error)),
@@ -266,10 +281,11 @@ impl<T> Stack<T> {
         self.values.is_empty()
     }
 
-    /// Returns `true` if the stack has `max_stack_size()` elements.
+    /// Returns `true` if the stack has (at least) `max_stack_size()` elements.
+    /// It can have more if the maximum was lowered after elements were added.
     #[must_use]
     pub fn is_full(&self) -> bool {
-        self.size() == self.max_stack_size
+        self.size() >= self.max_stack_size
     }
 
     /// Returns a reference to the top value on this stack, or
